@@ -27,6 +27,9 @@ MANIFEST = {
 def run(ctx):
     _storage.model_check(ctx)
     tot = _storage.run_sweep(ctx, ctx.pick(18, 96), ctx.pick(120, 2000), ["process", "synced", "mid"], gen2=ctx.pick(1, 4))
+    # the live store while checkpoints are taken next to the background flush / compaction (public API only)
+    from checks import c14
+    c14.ckpt_race(ctx, "C07")
     ctx.cov["evaluations"] = tot["images"] + tot["gen2_images"]
     ctx.cov["distinct_nontrivial"] = tot["images"]
     ctx.cov["rule"] = ("one evaluation = one (workload, crash instant, crash model) image reopened by the real recovery code; "
@@ -34,4 +37,8 @@ def run(ctx):
 
 
 def replay(ctx, doc):
-    _storage.replay(ctx, doc["replay"])
+    if doc["replay"].get("driver") == "ckpt_race":
+        from checks import c14
+        c14.ckpt_race(ctx, "C07")
+    else:
+        _storage.replay(ctx, doc["replay"])
